@@ -226,7 +226,7 @@ def gen_big_decimal(rng, target, op, follow=True):
     ox, oy = rng.choice([F(0), F(0), s, F(1, 10), F(23, 10)]), rng.choice([F(0), F(0), s2, F(3, 10)])
     t = rng.choice([F(6, 10), F(1, 2), F(7, 10)])
     low = lambda: [[m, rng.choice([q for q in DEC_RATIOS if q <= t])] for m in rng.sample(ac.MODS[:4], rng.choice([1, 2, 2, 3]))]
-    high = lambda: [[rng.choice(ac.MODS[:4]), rng.choice([q for q in DEC_RATIOS if q > t] + [F(1)])]] + \
+    high = lambda: [[rng.choice(ac.MODS[:3]), rng.choice([q for q in DEC_RATIOS if q > t] + [F(1)])]] + \
                    ([[rng.choice(["a_b", "Z9"]), F(1, 10)]] if rng.random() < 0.3 else [])
     cells, ops = [], []
     if op == "refine":
